@@ -1,5 +1,6 @@
 import SamVerif.Drive.Common
 import SamVerif.Model.Conf
+import SamVerif.Model.HcReset
 namespace SamVerif.Drive.C08
 open SamVerif SamVerif.Drive SamVerif.Conf
 
@@ -117,9 +118,22 @@ def handle (kind : String) (args : List String) (impl : String) : String :=
       (if (args == ["retype"]) == (impl == "store=1m,2b procs=1m,2b") then "ok" else s!"SPEC processor-hosts-differ-from-the-endpoint-set impl={impl}")
     else s!"SPEC processor-hosts-differ-from-the-endpoint-set impl={impl}"
   | "c08.hc", [mode] =>
-    -- a valid update is applied, an invalid one is refused and changes nothing; nothing crashes; only healthy hosts are used
-    let want := if mode == "int" then "update=ok answered=4/4" else if mode == "atcp" then "new=error" else if mode == "rej" then "update=error answered=4/4" else ""
-    if want == "" then "bad-op" else if impl == want then "ok" else s!"SPEC processor-does-not-follow-the-latest-valid-configuration expected={want} impl={impl}"
+    -- `Model.HcReset.reset`: a valid update is applied, an invalid one is refused and changes nothing (`Props.C08h.reset_all_or_nothing`);
+    -- nothing crashes; which backends are used follows from the checker in use (the silent backend of mode rej passes a TCP check only)
+    let showRes (r : HcReset.Res) : String := match r with | .ok => "ok" | .error => "error" | .panic => "panic"
+    let want : Option String :=
+      if mode == "int" then
+        let (_, r) := HcReset.reset { cfg := { interval := 20, checker := none }, inUse := .tcp } { interval := 30, checker := none }
+        some s!"update={showRes r} answered=4/4"
+      else if mode == "rej" then
+        let (m', r) := HcReset.reset { cfg := { interval := 20, checker := some .redis }, inUse := .redis }
+          { interval := 20, checker := some .atcp, buildable := false }
+        some s!"update={showRes r} answered={if m'.inUse == .redis then 4 else 2}/4"
+      else if mode == "atcp" then some "new=error"      -- a section whose checker cannot be built makes no monitor, and no processor
+      else none
+    match want with
+    | none => "bad-op"
+    | some w => if impl == w then "ok" else s!"SPEC processor-does-not-follow-the-latest-valid-configuration expected={w} impl={impl}"
   | "c08.hcoff", [] =>
     -- the processor's configuration is the latest one (no health check), the process is alive, and with no health check every
     -- endpoint is used: two of four round-robin connections reach each backend
